@@ -157,6 +157,35 @@ def run_case(c):
         tp.run(lang=c["lang"])
         T_, F_, S_, C_ = [np.array(a, float) for a in tp.thermal_properties]
         feat = dict(lang=c["lang"], classical=c["classical"], cutoff=cutoff, pretend_real=c["pretend_real"], projection=c["projection"])
+        # the same object run again (same temperatures: same answers; then another grid of the same length: the answers of a fresh object)
+        tp.run(lang=c["lang"])
+        _, Fr, Sr, Cr = [np.array(a, float) for a in tp.thermal_properties]
+        obs["n_rerun_same_object"] = obs.get("n_rerun_same_object", 0) + 1
+        for nm, a_, b_ in (("F", F_, Fr), ("S", S_, Sr), ("Cv", C_, Cr)):
+            fin = np.isfinite(a_) & np.isfinite(b_)
+            if (np.isfinite(a_) != np.isfinite(b_)).any() or (fin.any() and np.abs(a_[fin] - b_[fin]).max() > 1e-12 * max(np.abs(a_[fin]).max(), 1e-300)):
+                bad("rerun_differs", "%s changes when run() is called a second time on the same ThermalProperties object (max diff %.3e)" % (
+                    nm, np.abs(a_[fin] - b_[fin]).max() if fin.any() else np.nan), quantity=nm, **feat)
+                break
+        temps2 = np.array(temps, float)[::-1].copy() if len(temps) > 1 else np.array(temps, float) + 3.0
+        temps2 = np.abs(temps2 - temps2.min()) + (0.0 if np.min(temps) == 0 else 1.5)  # same length, contains T=0 when the first grid did
+        temps2 = np.sort(temps2)
+        tp.temperatures = temps2
+        tp.run(lang=c["lang"])
+        _, Fa, Sa, Ca = [np.array(a, float) for a in tp.thermal_properties]
+        fresh = ThermalProperties(StubMesh(freqs, weights, eig), cutoff_frequency=cutoff, pretend_real=c["pretend_real"], band_indices=bi,
+                                  is_projection=c["projection"], classical=c["classical"])
+        fresh.temperatures = temps2
+        fresh.run(lang=c["lang"])
+        _, Fb, Sb, Cb = [np.array(a, float) for a in fresh.thermal_properties]
+        for nm, a_, b_ in (("F", Fa, Fb), ("S", Sa, Sb), ("Cv", Ca, Cb)):
+            fin = np.isfinite(a_) & np.isfinite(b_)
+            if a_.shape != b_.shape or (np.isfinite(a_) != np.isfinite(b_)).any() or (fin.any() and np.abs(a_[fin] - b_[fin]).max() > 1e-12 * max(np.abs(b_[fin]).max(), 1e-300)):
+                bad("rerun_differs", "%s on a second temperature grid differs between a re-used ThermalProperties object and a fresh one (max diff %.3e)" % (
+                    nm, np.abs(a_[fin] - b_[fin]).max() if fin.any() and a_.shape == b_.shape else np.nan), quantity=nm, **feat)
+                break
+        tp.temperatures = temps
+        tp.run(lang=c["lang"])
         other = ThermalProperties(StubMesh(freqs, weights, eig), cutoff_frequency=cutoff, pretend_real=c["pretend_real"], band_indices=bi,
                                   is_projection=c["projection"], classical=c["classical"])
         other.temperatures = temps
